@@ -25,7 +25,7 @@
     value position, the [safe_stmts] fragment of DESIGN A.2) and chained comparisons whose last
     operand is lifted; these are covered by the CFG-equality tie and the semantic search only. *)
 From Coq Require Import ZArith List Bool.
-From V.C03 Require Import PyAst PySem Cfg CfgSem Builder Encode Frag Witness ProofsRefute ProofsBase ProofsExpr ProofsBranch ProofsBuild.
+From V.C03 Require Import PyAst PySem Cfg CfgSem Builder Encode Frag Witness ProofsRefute ProofsBase ProofsExpr ProofsBranch ProofsBuild ProofsLoopElse.
 Import ListNotations.
 
 (* v1 = (v0 + (v0 := 5)): Python adds the old v0, the CFG computes 5 + 5 *)
@@ -147,10 +147,16 @@ Definition ex_prog : stmts :=
   (one (SAssign (TName (VU 2)) (i 5)))).
 Example build_hypotheses_satisfiable :
   frag_stmts ex_prog = true /\
-  (exists g s, build ex_prog false = BOk g s /\ length g = 13) /\
+  (exists g s, build ex_prog false = BOk g s /\ length g = 14) /\
   (exists st', exec_py test_oracle 30 ex_prog st0 = Done (VTuple [VInt 1; VInt 1], st')).
 Proof.
   split. { reflexivity. }
   split. { eexists. eexists. split; vm_compute; reflexivity. }
   eexists. vm_compute. reflexivity.
 Qed.
+
+(* accepted bodies carry no loop else suite (any expressions; reused by C32) *)
+Theorem build_accepts_no_loop_else_thm : forall p returns_none g s,
+  build p returns_none = BOk g s -> no_loop_else_list p = true.
+Proof. exact build_accepts_no_loop_else. Qed.
+Print Assumptions build_accepts_no_loop_else_thm.
